@@ -7,6 +7,7 @@ from verif import Infra, log
 import C12
 
 TRACE_CFG = "SPECIFICATION TraceSpec\nCONSTANTS MaxBad = 100000\nCHECK_DEADLOCK FALSE\nPOSTCONDITION Post\n"
+GEN_CFG = "SPECIFICATION Spec\nCONSTANTS Tier = \"%s\"\nCHECK_DEADLOCK FALSE\n"
 MC_CFG = "SPECIFICATION Spec\nCONSTANTS Rule = \"%s\"\nINVARIANTS RoundTrip%s\nCHECK_DEADLOCK FALSE\n"
 
 
@@ -85,7 +86,9 @@ def judge(ctx, cases):
             pathdev.setdefault((b["form"], b["kind"], json.dumps(ev["case"], sort_keys=True)), (b, ev))
             continue
         cell = b["cell"]
-        if cell.startswith("parent="):
+        if "fnarg " in cell:
+            pass      # the function-argument table: the cell name is the coordinate TLC (PathTextGen) gave the case
+        elif cell.startswith("parent="):
             cell = "parent=%s left=%s right=%s" % tuple(b["tri"])
         elif ev["k"] == "txt":
             # parsed text: the operator triple of the tree the text denotes (TLC: Intended), "not" variants kept apart
@@ -123,6 +126,19 @@ def main(ctx):
     cases = os.path.join(ctx.scratch, "c14cases.ndjson")
     with open(cases, "wb") as f:
         ctx.run([pb, "c14gen", "-tier", ctx.tier], stdout=f)
+    # TLC enumerates the function x argument position x argument shape x unary-operand side table (PathTextGen)
+    g = ctx.tlc("PathTextGen", GEN_CFG % ctx.tier, files={"rx.ndjson": rx}, workers=1, timeout=600)
+    gen = os.path.join(g.dir, "c14fn.ndjson")
+    if g.error or g.violated or not os.path.exists(gen):
+        raise Infra("PathTextGen failed:\n" + g.out[-2000:])
+    nfn = 0
+    with open(cases, "ab") as f:
+        for line in open(gen, "rb"):
+            f.write(line)
+            nfn += 1
+    if nfn < 1000:
+        raise Infra("PathTextGen wrote only %d cells" % nfn)
+    ctx.cov["function_argument_cells"] = nfn
     ncases = sum(1 for _ in open(cases, "rb"))
     ctx.cov["cases"] = ncases
     if ncases < 1000:
